@@ -389,6 +389,7 @@ class PureEval:
             if n == "iff": return B(ops.truth(self.st, args[0]) == ops.truth(self.st, args[1]))
             if n == "len":
                 v = args[0]
+                if isinstance(v, SOpaqueObj): return I(S.obj_fn("len", S.Obj, z3.IntSort())(v.ident()))
                 if isinstance(v, SSeq): return I(v.n)
                 if isinstance(v, SSetV): return I(ops.card(v.mem)[0])
                 if isinstance(v, SDictV): return I(ops.card(v.dom)[0])
